@@ -5,6 +5,7 @@ import FimVerif.Model.Arm
 * `["adms", G]` → `["ok", [[d, G'], …]]` | `["err","query"]`       (pure model, extracted configuration)
 * `["adms_store", [[gid, G], …], arm, [[d, gid], …]]` → `["ok", [[d, gid], …], [[gid, G], …]]` | `["err","query"]`
 * `["rekey", G, x]` → `["ok", raised, G']`
+* `["rekeys", G, [x1, x2, …]]` → `["ok", [[raised, G1], [raised, G2], …]]`  (re-keyed in sequence; stops changing after a raise)
 * `["keep", G, d]` → `["ok", [ids]]`
 
 `G = {"nodes": [[id, cls, [[k, v], …], ldel, cdel], …], "edges": [[a, b, rel, [[k, v], …]], …]}`,
@@ -90,6 +91,13 @@ def handle (j : Json) : Json :=
     match getG g with
     | some g => let r := rekey g x; Json.arr #[.str "ok", .bool r.1, ofG r.2]
     | none => err "bad-args"
+  | .arr #[.str "rekeys", g, xs] =>
+    match getG g, getStrs xs with
+    | some g, some xs =>
+      let step := fun (acc : List (Bool × G) × G) x => let r := rekey acc.2 x; (acc.1 ++ [r], r.2)
+      let out := (xs.foldl step ([], g)).1
+      ok (Json.arr (out.map fun r => Json.arr #[.bool r.1, ofG r.2]).toArray)
+    | _, _ => err "bad-args"
   | .arr #[.str "adms_store", s, .str arm, m] =>
     match getStore s, getPairs m with
     | some s, some m =>
